@@ -431,6 +431,14 @@ class IMAPClientCommand:
         #
         self.msg_set_as_set: set[int] | None = None
 
+        # If the mbox's management task can not resolve `msg_set` against the
+        # mailbox (a message sequence number beyond the end of the mailbox,
+        # `*` in an empty mailbox) it stores the error here and releases the
+        # command, which then fails with that error instead of waiting for
+        # the command timeout.
+        #
+        self.resolve_error: Exception | None = None
+
         # If the IMAP Command is currently operating under an asyncio.Timeout
         # context manager, that context manager is set here so that when a
         # command is being processed, if it knows it is going to run longer it
@@ -466,6 +474,8 @@ class IMAPClientCommand:
         try:
             mbox.task_queue.put_nowait(self)
             await self.ready.wait()
+            if self.resolve_error is not None:
+                raise self.resolve_error
             if mbox.deleted:
                 from .mbox import NoSuchMailbox
 
